@@ -43,6 +43,12 @@ CHECKS = {
         text='The oracle is supp itself on a fresh state: every read is first answered on a fresh analysis, then the same reads are asked on one analysis object in all permutations (small modules) or forward/reverse/inside-out/every-read-first/random orders, and lint()/location() must agree with the per-read answers; project-level request sequences are compared request by request with a new Project. Decides order-independence (memoisation transparency), which no single-order unit test can see.',
         design_ref='DESIGN.md section 4 (C04)',
         note='Says nothing about correctness of the baseline (C01-C03 do). Real files: baselines for a sample of reads (loop reads preferred); all reads compared across orders.'),
+    'C08': dict(
+        technique='fuzzing / property-based robustness testing with a semantic oracle (ast.parse on the text and on the cursor-marked text), exception bucketing by (entry point, exception class, innermost supp frame); atheris-free quick tier, corpus + mutation + generated streams',
+        category='exploration',
+        text='Real files at seeded cursor positions, typing-state mutations, generated programs and deliberately cyclic cases are pushed through lint/assist/location; the oracle is CPython\'s own parser (E01 iff the text does not parse, with its message and position; SyntaxError from assist/location only when the marked text does not parse; nothing else may escape; results well-formed). Failures are bucketed by root cause so the campaign continues behind each one.',
+        design_ref='DESIGN.md section 4 (C08)',
+        note='Cannot show termination, only absence of non-termination within 60 s per call on the explored inputs; AST depth > 60 is out of domain; project files other than the edited one are the committed fixtures and the stdlib.'),
 }
 
 NOT_YET = 'check not built yet in this session (planned in DESIGN.md section 4); not claimed until its command exists'
